@@ -3,6 +3,8 @@ import RpmVerif.Lemmas.AddDataSpec
 import RpmVerif.Props.C20
 import RpmVerif.Lemmas.WithFile
 import RpmVerif.Gen.CompressionNames
+import RpmVerif.Lemmas.PrepareData
+import RpmVerif.Lemmas.SignE
 /-!
 # C17 — the builder rejects bad arguments with errors, not panics
 
@@ -572,5 +574,271 @@ example : defaultCompression (fun t => Gen.cargoDefaultFeatureTypes.contains t) 
     defaultCompression (fun _ => false) = some (0, 0) ∧ defaultCompression (fun t => t == 4) = some (0, 0) := by decide
 example : withLevelOfType 4 = some (4, 9) ∧ withLevelOfType 5 = none := by decide
 end
+
+
+/-! ## the whole build: every call, then `build()` (audit items a5 / c43)
+
+`Model/PrepareData.lean`: `Build.run` is the builder state as a function of the calls the caller writes (every metadata,
+scriptlet, dependency and changelog setter, `source_date`, `with_file` with its options chain), `Build.prepareData` /
+`Build.build` are `prepare_data` / `build()` with one explicit outcome for every `?`, `unwrap`, `expect` and checked arithmetic
+operation. -/
+section whole
+open RpmVerif.Build RpmVerif.Bld
+
+/-- **every setter and every `with_file` call is panic-free — except the two timestamp conversions** (`Call.TsOk`: a
+`SystemTime` / `DateTime` argument inside 1970..2106; a `u32` always is) -/
+theorem step_total (sha256hex : Bytes → Bytes) (valid : Bytes → Bool) (s : St) (c : Build.Call) (ht : c.TsOk) :
+    (step sha256hex valid s c).isPanic = false := by
+  have hts : ∀ t, TsInRange t → ∀ {β} (f : Nat → β), ((timestampSetter t).map f).isPanic = false := by
+    intro t h β f
+    cases hp : timestampSetter t with
+    | ok n => rfl
+    | err e => rfl
+    | panic p =>
+      have := (timestamp_setter_panics_iff t).mp (by rw [hp]; rfl)
+      exact absurd h this
+  cases c with
+  | set m => rfl
+  | sourceDate t =>
+    cases t with
+    | secs n => rfl
+    | src x => exact hts (.src x) ht _
+  | changelog name entry t =>
+    cases t with
+    | secs n => rfl
+    | src x => exact hts (.src x) ht _
+  | file wc =>
+    simp only [step]
+    have hc : (runCall sha256hex valid wc).isPanic = false := by
+      unfold runCall
+      rcases applySetters_cases valid wc.setters (FileOpts.new wc.dest) with ⟨o', h⟩ | h
+      · rw [h]; exact with_file_total _ _ _
+      · rw [h]; rfl
+    cases hr : runCall sha256hex valid wc with
+    | ok e => rfl
+    | err e => rfl
+    | panic p => rw [hr] at hc; cases hc
+
+/-- a whole call sequence: no panic (an `Err` of `with_file` — unreadable source, file time outside 1970..2106, unsplittable
+destination, refused capability text — ends it) -/
+theorem run_total (sha256hex : Bytes → Bytes) (valid : Bytes → Bool) (calls : List Build.Call) (s : St)
+    (ht : ∀ c ∈ calls, c.TsOk) : (run sha256hex valid calls s).isPanic = false := by
+  induction calls generalizing s with
+  | nil => rfl
+  | cons c r ih =>
+    have hc := step_total sha256hex valid s c (ht c (List.mem_cons_self ..))
+    simp only [run]
+    cases hr : step sha256hex valid s c with
+    | ok s' => exact ih s' (fun x hx => ht x (List.mem_cons_of_mem _ hx))
+    | err e => rfl
+    | panic p => rw [hr] at hc; cases hc
+
+/-- **`PackageBuilder::new(..).<any calls>.build()` never panics** — whatever strings and numbers go into the metadata,
+scriptlet, dependency, changelog, file, capability and compression setters, whatever the source files are (missing,
+unreadable, any mode, any time), however the compressor's `write` / `flush` / `finish` answer — PROVIDED
+* no `SystemTime` / `DateTime` outside 1970..2106 reaches `source_date` / `add_changelog_entry` (the known finding, `ht`),
+* the system clock is inside 1970..2106 (`Timestamp::now()` unwraps; `hclock`),
+* the codec crates do not panic (`hq`),
+* fewer than 2^32 − 1 files and fewer than 2^64 content bytes are added (`u32` inode counter, `u64` size sum: bounds no
+  process reaches with the contents held in memory),
+* the large-file limit is at most `u32::MAX` (it IS `u32::MAX`; only the verification hook moves it).
+Each proviso is needed: `build_total_needs_clock`, `build_args_can_panic`, and the panic sites of `Build.prepareData`. -/
+theorem build_total (E : Env) (valid : Bytes → Bool) (name version license arch summary : Bytes) (dc : Bld.Comp) (calls : List Build.Call)
+    (ht : ∀ c ∈ calls, c.TsOk) (hclock : E.ClockOk) (hq : E.Quiet)
+    (hcount : calls.length < 4294967295)
+    (hmem : ∀ s, run E.hex valid calls (St.new name version license arch summary dc) = .ok s →
+      (s.fes.map (·.2.length)).sum < 18446744073709551616) :
+    (buildCalls E valid (St.new name version license arch summary dc) calls).isPanic = false := by
+  unfold buildCalls
+  refine Out.bind_not_panic (run_total _ _ _ _ ht) (fun s hs => ?_)
+  obtain ⟨inv, hlen⟩ := (inv_new name version license arch summary dc).run hs
+  have hthr : s.cfg.largeFileThreshold ≤ 4294967295 := by
+    have : ∀ (calls : List Build.Call) (s0 s1 : St), run E.hex valid calls s0 = .ok s1 →
+        s1.base.largeFileThreshold = s0.base.largeFileThreshold := by
+      intro calls
+      induction calls with
+      | nil => intro s0 s1 h; cases h; rfl
+      | cons c r ih =>
+        intro s0 s1 h
+        obtain ⟨sm, h1, h2⟩ := run_cons_ok h
+        rw [ih sm s1 h2]
+        rcases step_ok h1 with ⟨m, rfl⟩ | ⟨wc, e, _, _, rfl⟩
+        · cases m <;> try rfl
+          all_goals (rename_i k _; simp only [MetaSetter.apply]; split <;> rfl)
+        · rfl
+    have h0 := this calls _ s hs
+    show s.base.largeFileThreshold ≤ 4294967295
+    rw [h0]; exact Nat.le_refl _
+  exact build_not_panic E s.cfg s.fes hq hclock inv.dirs inv.size (hmem s hs)
+    (by simp only [St.new, List.length_nil] at hlen; omega) hthr
+
+
+/-- **`build_and_sign` never panics** under the provisos of `build_total`, a clock inside 1970..2106 at its own
+`Timestamp::now()` and a `Signing` implementation that returns `Ok` or `Err` (the signature time is a `Timestamp`, so the
+conversion inside `sign_with_timestamp` cannot fail) -/
+theorem build_and_sign_total (E : Env) (clock0 : Timestamp.Instant) (S : Sign.SigScheme) (pubAlg : Bytes → Option Nat)
+    (signer : Bytes → Nat → Out Bytes) (c : Cfg) (fes : List (FileE × Bytes))
+    (hsigner : ∀ m n, (signer m n).isPanic = false) (h0 : 0 ≤ clock0.secs) (h1 : clock0.secs < 4294967296)
+    (hq : E.Quiet) (hclock : E.ClockOk) (hd : ∀ p ∈ fes, p.1.dir ∈ c.directories) (hs : ∀ p ∈ fes, p.1.size = p.2.length)
+    (hmem : (fes.map (·.2.length)).sum < 18446744073709551616) (hcount : fes.length < 4294967295)
+    (hthr : c.largeFileThreshold ≤ 4294967295) :
+    (buildAndSign E clock0 S pubAlg signer c fes).isPanic = false := by
+  unfold buildAndSign
+  rw [now_ok h0 h1]
+  simp only [Out.bind_ok]
+  refine Out.bind_not_panic (build_not_panic E c fes hq hclock hd hs hmem hcount hthr) (fun pkg _ => ?_)
+  unfold Sign.signOpE
+  simp only [timestampSetter, Out.bind_ok]
+  refine Out.bind_not_panic (hsigner _ _) (fun sig _ => ?_)
+  exact Out.bind_not_panic (Sign.sigBuilderBuild_not_panic _ _ _) (fun _ _ => rfl)
+
+/-- no call moves the large-file limit -/
+theorem run_keeps_threshold {sha256hex : Bytes → Bytes} {valid : Bytes → Bool} (calls : List Build.Call) (s0 s1 : St)
+    (h : run sha256hex valid calls s0 = .ok s1) : s1.base.largeFileThreshold = s0.base.largeFileThreshold := by
+  rw [run_base h]
+  exact (new_args_kept _ _).2.2.2.2.2.2.2
+
+/-- **the large-file switch at its real boundary** (audit items a3 / a22): for the state any call sequence on a fresh builder
+leaves, `uses_large_files` — computed from the `size` fields — is "the CONTENTS sum to more than `u32::MAX` bytes"
+(`entry.size` is `content.len()`), and without it the combined size and every single size fit a `u32`: the two `expect`s of
+`prepare_data` (RPMTAG_SIZE, RPMTAG_FILESIZES) and the `content.len() as u32` of the cpio header lose nothing -/
+theorem large_file_switch {sha256hex : Bytes → Bytes} {valid : Bytes → Bool} {calls : List Build.Call}
+    {name version license arch summary : Bytes} {dc : Bld.Comp} {s : St}
+    (h : run sha256hex valid calls (St.new name version license arch summary dc) = .ok s) :
+    (usesLargeFiles s.cfg = true ↔ (s.fes.map (·.2.length)).sum > 4294967295) ∧
+    (usesLargeFiles s.cfg = false →
+      combinedSize s.cfg < 4294967296 ∧ ∀ p ∈ s.fes, p.1.size < 4294967296 ∧ p.2.length < 4294967296) := by
+  obtain ⟨inv, _⟩ := (inv_new name version license arch summary dc).run h
+  have hthr : s.cfg.largeFileThreshold = 4294967295 := by
+    show s.base.largeFileThreshold = 4294967295
+    rw [run_keeps_threshold calls _ s h]; rfl
+  have hsum : combinedSize s.cfg = (s.fes.map (·.2.length)).sum := by
+    simp only [combinedSize, St.cfg, List.map_map]
+    exact congrArg List.sum (List.map_congr_left (fun p hp => inv.size p hp))
+  refine ⟨?_, fun hl => ?_⟩
+  · simp only [usesLargeFiles, hthr, hsum, decide_eq_true_eq]
+  · have hle : combinedSize s.cfg ≤ 4294967295 := by simpa [usesLargeFiles, hthr] using hl
+    refine ⟨by omega, fun p hp => ?_⟩
+    have h1 : p.1.size ≤ combinedSize s.cfg := by
+      simp only [combinedSize, St.cfg, List.map_map]
+      exact PWriter.sum_le_of_mem (List.mem_map_of_mem (f := fun q : FileE × Bytes => q.1.size) hp)
+    have := inv.size p hp
+    omega
+
+/-- **an `Ok` of `build()` into an all-accepting compressor is the package of the models C06 – C09 reason about**: the total
+`Bld.build` for the clock reading, with `Cpio.builderArchive` / `builderArchiveLarge` of the files (C07's archive models:
+entries in key order, inode numbers from 1, uid = gid = 0; stripped entries with the file index) as the archive whose digest is
+recorded — for every state a call sequence leaves. Ties `Build.prepareData` (this property's whole-build model) to
+`C09.archiveFor` / `C07.files_of_build`. -/
+theorem build_ok_is_model_build (E : Env) (valid : Bytes → Bool) (name version license arch summary : Bytes) (dc : Bld.Comp)
+    (calls : List Build.Call) (p : Hdr.Package) (ha : Sink.Accepting E.sink) (ho : E.sink.out = [])
+    (hcount : calls.length < 4294967295)
+    (h : buildCalls E valid (St.new name version license arch summary dc) calls = .ok p) :
+    ∃ s now, run E.hex valid calls (St.new name version license arch summary dc) = .ok s ∧
+      (Timestamp.now E.clock).toOut = .ok now ∧
+      E.finish (if usesLargeFiles s.cfg then Cpio.builderArchiveLarge (s.fes.map toFileIn) else Cpio.builderArchive 0 0 (s.fes.map toFileIn)) = .ok p.content ∧
+      p = Bld.build s.cfg now E.hex
+        (if usesLargeFiles s.cfg then Cpio.builderArchiveLarge (s.fes.map toFileIn) else Cpio.builderArchive 0 0 (s.fes.map toFileIn)) p.content := by
+  unfold buildCalls at h
+  simp only [Out.bind_eq_ok] at h
+  obtain ⟨s, hs, hb⟩ := h
+  obtain ⟨now, archive, hnow, harch, hfin, hp⟩ := build_ok hb
+  obtain ⟨inv, hlen⟩ := (inv_new name version license arch summary dc).run hs
+  obtain ⟨hiff, _⟩ := large_file_switch hs
+  have hthr : s.cfg.largeFileThreshold = 4294967295 := by
+    show s.base.largeFileThreshold = 4294967295
+    rw [run_keeps_threshold calls _ s hs]; rfl
+  -- a build that returned `Ok` summed its sizes without overflow
+  have hmem : (s.fes.map (·.2.length)).sum < 18446744073709551616 := by
+    have hsum : (s.fes.map (·.1.size)).sum = (s.fes.map (·.2.length)).sum := sum_map_congr s.fes _ _ inv.size
+    unfold prepareArchive at harch
+    rcases sumU64_spec (s.fes.map (·.1.size)) 0 (by decide) with ⟨hlt, _⟩ | ⟨_, hpan⟩
+    · rw [hsum] at hlt; omega
+    · rw [hpan] at harch; cases harch
+  have := prepareArchive_accepting E s.cfg s.fes ha ho inv.dirs inv.size hmem
+    (by simp only [St.new, List.length_nil] at hlen; omega) (by omega)
+  rw [this] at harch
+  simp only [Option.some.injEq] at harch
+  have hcond : ((s.fes.map (·.2.length)).sum > s.cfg.largeFileThreshold) = (usesLargeFiles s.cfg = true) := by
+    rw [hthr]; exact propext hiff.symm
+  simp only [hcond] at harch
+  subst harch
+  exact ⟨s, now, hs, hnow, hfin, hp⟩
+
+/-- the variant indices `Build.compVariant` writes out are the positions of the names in `enum CompressionWithLevel` -/
+theorem comp_variant_table : Gen.levelVariants = ["None", "Zstd", "Gzip", "Xz", "Bzip2"] := rfl
+
+/-- an environment in which everything outside the builder succeeds: an all-accepting compressor that returns the archive -/
+def envOk (clock : Timestamp.Instant) : Env :=
+  { sha256 := fun _ => [], clock := clock, enc := fun _ _ => .ok (), sink := {}, finish := fun a => .ok a }
+
+theorem envOk_quiet (clock : Timestamp.Instant) : (envOk clock).Quiet := ⟨fun _ _ _ => rfl, fun _ => rfl⟩
+
+/-- **the clock proviso of `build_total` is needed**: with a system clock one nanosecond before 1970 (or from 2106-02-07 on)
+`build()` panics inside `Timestamp::now()`, for the plainest builder there is (model only: no operation can move the real
+clock; the conversion itself is tied by C20's `tssys`) -/
+theorem build_total_needs_clock :
+    (buildCalls (envOk ⟨-1, 999999999, by decide⟩) (fun _ => true) (St.new [112] [49] [] [] [] .none) []).isPanic = true ∧
+    (buildCalls (envOk ⟨4294967296, 0, by decide⟩) (fun _ => true) (St.new [112] [49] [] [] [] .none) []).isPanic = true ∧
+    (buildCalls (envOk ⟨4294967295, 999999999, by decide⟩) (fun _ => true) (St.new [112] [49] [] [] [] .none) []).isOk = true := by
+  decide +kernel
+
+/-! ### non-vacuity of the whole-build theorems -/
+section
+open RpmVerif.WithFile
+
+/-- a source file, and calls of every kind: metadata (one of them twice), a typed source date, a changelog entry with a
+`SystemTime`, scriptlets from text and with flags / interpreter, two dependencies, two files (one with capabilities) -/
+def demoSrc : Source := .readable ⟨[1, 2, 3, 4, 5], 0o100644, ⟨1500000000, 7, by decide⟩⟩
+def demoCalls : List Build.Call :=
+  [.set (.release [50]), .set (.url [104]), .set (.url [105]), .set (.epoch 3), .sourceDate (.src (.chrono ⟨⟨1600000000, 5, by decide⟩, 3600⟩)),
+   .changelog [109, 101] [120] (.src (.sys ⟨1000, 0, by decide⟩)), .set (.script 0 (Scriptlet.new [101, 99, 104, 111])),
+   .set (.script 8 ((Scriptlet.new [120]).withFlags 1 |>.withProg [[47, 98, 105, 110, 47, 115, 104]])),
+   .set (.dep 0 ⟨[119], 8, [49]⟩), .set (.dep 4 ⟨[114], 0, []⟩),
+   .file ⟨demoSrc, [47, 117, 47, 120], [.user [117], .caps [61, 112]]⟩, .file ⟨demoSrc, [46, 47, 97], []⟩,
+   .set (.compression (.gzip 6))]
+
+-- the hypotheses of `build_total` are satisfiable together, and the build succeeds
+example : (∀ c ∈ demoCalls, c.TsOk) ∧ (envOk ⟨1700000000, 0, by decide⟩).ClockOk ∧ (envOk ⟨1700000000, 0, by decide⟩).Quiet := by
+  refine ⟨?_, ⟨by decide, by decide⟩, envOk_quiet _⟩
+  intro c hc
+  simp only [demoCalls, List.mem_cons, List.not_mem_nil, or_false] at hc
+  rcases hc with rfl | rfl | rfl | rfl | rfl | rfl | rfl | rfl | rfl | rfl | rfl | rfl | rfl <;>
+    first | trivial | (constructor <;> decide)
+example : (buildCalls (envOk ⟨1700000000, 0, by decide⟩) (fun _ => true) (St.new [112] [49] [] [] [] .none) demoCalls).isOk = true := by
+  decide +kernel
+-- `envOk`'s compressor is all-accepting and starts empty: the hypotheses of `build_ok_is_model_build` hold for the build above
+example (clock : Timestamp.Instant) : Sink.Accepting (envOk clock).sink ∧ (envOk clock).sink.out = [] := ⟨⟨rfl, rfl⟩, rfl⟩
+-- the state the calls leave behind: the last `url` wins, the files are in key order with their contents, both directories are there
+def demoState : Option St := (run (fun _ => []) (fun _ => true) demoCalls (St.new [112] [49] [] [] [] .none)).toOption
+example : demoState.map (·.base.url) = some (some [105]) ∧ demoState.map (·.base.release) = some [50] ∧
+    demoState.map (·.base.epoch) = some 3 ∧ demoState.map (·.base.sourceDate) = some (some 1600000000) ∧
+    demoState.map (·.base.changelog) = some [([109, 101], [120], 1000)] ∧
+    demoState.map (fun s => s.fes.map (fun p => (p.1.cpioPath, p.2))) =
+      some [([46, 47, 97], [1, 2, 3, 4, 5]), ([46, 47, 117, 47, 120], [1, 2, 3, 4, 5])] ∧
+    demoState.map (·.dirs) = some [[47], [47, 117, 47]] := by decide +kernel
+-- a `with_file` error ends the chain as an `Err`, a refused level as an `Err`, a failing compressor as an `Err` — never a panic
+example : buildCalls (envOk ⟨1700000000, 0, by decide⟩) (fun _ => true) (St.new [112] [49] [] [] [] .none)
+    [.file ⟨.openFails, [47, 97], []⟩] = .err "io" := by decide +kernel
+example : buildCalls (envOk ⟨1700000000, 0, by decide⟩) (fun _ => true) (St.new [112] [49] [] [] [] .none)
+    [.set (.compression (.gzip 10))] = .err "level-out-of-range" := by decide +kernel
+example : buildCalls { envOk ⟨1700000000, 0, by decide⟩ with sink := { script := [.fail] } } (fun _ => true)
+    (St.new [112] [49] [] [] [] .none) [.file ⟨demoSrc, [47, 97], []⟩] = .err "io" := by decide +kernel
+example : buildCalls { envOk ⟨1700000000, 0, by decide⟩ with finish := fun _ => .err "io" } (fun _ => true)
+    (St.new [112] [49] [] [] [] .none) [] = .err "io" := by decide +kernel
+-- the known finding inside a whole build: a pre-1970 `DateTime` handed to `add_changelog_entry`
+example : (buildCalls (envOk ⟨1700000000, 0, by decide⟩) (fun _ => true) (St.new [112] [49] [] [] [] .none)
+    [.changelog [] [] (.src (.chrono ⟨⟨-1, 0, by decide⟩, 0⟩))]).isPanic = true := by decide +kernel
+-- the panic sites of `prepare_data` are real: a state no call sequence produces (a file whose directory is not registered; a
+-- size field of 4 GiB under a raised large-file limit) reaches `position(..).unwrap()` / the `expect` of RPMTAG_SIZE
+def strayFile : FileE := ⟨[46, 47, 97], [47], [97], 0, 0o100644, sRoot, sRoot, [], 0, none, 0, 0, []⟩
+example : prepareData (envOk ⟨1700000000, 0, by decide⟩) (Cfg.new [112] [49] [] [] [] .none) [(strayFile, [])] =
+    .panic "dir-position-unwrap" := by decide +kernel
+example : prepareData (envOk ⟨1700000000, 0, by decide⟩)
+    { Cfg.new [112] [49] [] [] [] .none with directories := [[47]], largeFileThreshold := 8589934592 }
+    [({ strayFile with size := 4294967296 }, [])] = .panic "size-expect" := by decide +kernel
+end
+
+end whole
 
 end RpmVerif.C17
